@@ -30,11 +30,25 @@ class Cfg:
     def __repr__(self):
         return 'Cfg(%s k=%d r=%d len=%d N1=%d seed=%d %s)' % (self.kind, self.k, self.r, self.len, self.N1, self.seed, self.payload)
 
+def refused_params_line(cfg, sid):
+    """a configuration of the same codec that passes the generic layer and is refused by the codec itself (k above its limit,
+    N1 above n-k, a (k, n-k) that is no product shape): the session stays without parameters and may be configured again"""
+    if cfg.codec == 1: return 'params %d 256 3 8 0 0 0' % sid
+    if cfg.codec == 2: return 'params %d %d 2 4 %d 0 0' % (sid, 16 if cfg.m == 4 else 256, cfg.m)
+    if cfg.codec == 3: return 'params %d 12 6 2 0 7 9' % sid
+    return 'params %d 5 3 2 0 0 0' % sid
+
 def decoder_case(name, cfg, order, api='stream', finish=True, cb='none', trace=False, sid=0, role=2,
-                 matrix=False, early_release=None, finish_twice=False):
-    """one decoder session: submit `order` (list of ESIs, duplicates allowed) through `api`"""
-    b = ['new %d %d %d' % (sid, cfg.codec, role), cfg.params_line(sid)]
-    if cb != 'none':
+                 matrix=False, early_release=None, finish_twice=False, cb_first=False, refused_first=False):
+    """one decoder session: submit `order` (list of ESIs, duplicates allowed) through `api`; `cb_first`: the callback is registered
+    before the parameters are set; `refused_first`: a configuration the codec refuses is tried first on the same session"""
+    b = ['new %d %d %d' % (sid, cfg.codec, role)]
+    if refused_first:
+        b.append(refused_params_line(cfg, sid))
+    if cb != 'none' and cb_first:
+        b.append('cb %d %s' % (sid, cb))
+    b.append(cfg.params_line(sid))
+    if cb != 'none' and not cb_first:
         b.append('cb %d %s' % (sid, cb))
     b += [cfg.payload_line(sid), 'cwdump %d' % sid]
     if matrix and cfg.codec in (3, 5):
